@@ -93,8 +93,8 @@ Proof.
     destruct x as [o0|]; [|apply (deliv_same s); auto].
     assert (HA : o_where (go s o0) = PChan (c_topic (gc s c)) hi).
     { apply W. simpl. unfold vchan. rewrite Hv. apply in_or_app; right; left; reflexivity. }
-    destruct (o_id (go s o0) =? 0); upd s o0;
-      intros Hd; exfalso; revert Hd; apply not_delivered_place; rewrite HA; discriminate.
+    upd s o0.
+    intros Hd; exfalso; revert Hd; apply not_delivered_place; rewrite HA; discriminate.
   - (* EPumpPut *)
     apply step_pump_put in H. cbv zeta in H. destruct H as (x & Hh & ->).
     destruct x as [o0|]; [|apply (deliv_same s); auto].
@@ -142,8 +142,8 @@ Proof.
     destruct x as [o0|]; [|apply (deliv_same s); auto].
     assert (HA : o_where (go s o0) = PChan (x_topic (gx s k)) hi).
     { apply W. simpl. unfold vchan. rewrite Hv. apply in_or_app; right; left; reflexivity. }
-    destruct (o_id (go s o0) =? 0); upd s o0;
-      intros Hd; exfalso; revert Hd; apply not_delivered_place; rewrite HA; discriminate.
+    upd s o0.
+    intros Hd; exfalso; revert Hd; apply not_delivered_place; rewrite HA; discriminate.
   - (* EXPut *)
     apply step_xput in H. cbv zeta in H. destruct H as (x & Hh & ->).
     destruct x as [o0|]; [|apply (deliv_same s); auto].
